@@ -167,7 +167,7 @@ pub fn def(prop: &str) -> Option<PropDef> {
             level: "exploration",
             rule: "One evaluation = one lint call in a history of 6-36 calls on one long-lived harper_wasm::Linter (natively compiled): lint(text, Plain|Markdown), text edits, language switches, ignore_lint, import_words (flagged words of the current text and corpus words), export_words into a new linter, export/clear/import of the ignore list, set_lint_config_from_json / get_lint_config_as_json, apply_suggestion, to_json/from_json of Lint/Span/Suggestion, generate_stats_file/import_stats_file, in all four dialects. No fault or schedule dimension (single-threaded object without I/O): histories against a model. Oracles after every lint: spans inside the text, pairwise non-overlapping, problem text = characters at the span; the result equals that of a fresh Linter brought to the model's state by the shortest history (new, import_words, set config, import ignore list); after ignore_lint the same text yields the previous result minus that lint (and lints of identical identity) and nothing new; apply_suggestion equals an independent splice; round trips restore behaviour / re-serialise identically; import_stats_file(generate_stats_file()) doubles the log. Non-trivial: history longer than three calls. Distinct: by hash of (initial text, operation sequence).",
             assumptions: vec!["the JS glue (JsValue methods, wasm-bindgen marshalling) is not executed; the Rust methods behind it are", "reference = a fresh Linter of the same library"],
-            must_reach: vec!["c16_lint_results_checked", "c16_nonempty_results", "c16_import_words", "c16_words_roundtrip", "c16_config_set", "c16_suggestions_applied", "c16_json_roundtrips", "c16_stats_roundtrips", "c16_ignore_checked", "language_switched", "c14_roundtrips"],
+            must_reach: vec!["c16_lint_results_checked", "c16_nonempty_results", "c16_import_words", "c16_words_roundtrip", "c16_config_set", "c16_suggestions_applied", "c16_json_roundtrips", "c16_stats_roundtrips", "c16_ignore_checked", "c16_ignore_right_after_import", "language_switched", "c14_roundtrips"],
             real: vec!["harper_wasm::Linter and its Lint/Span/Suggestion wrappers (native rlib)", "harper-core (LintGroup, remove_overlaps, IgnoredLints, Suggestion::apply, dictionaries)", "harper-stats"],
             stub: vec!["wasm-bindgen JS glue", "the browser / Node host"],
             watchdog_secs: 180,
